@@ -43,21 +43,30 @@ theorem tget_tdel_self (k : K) (t : Table K V) : tget k (tdel k t) = none := by
 theorem tget_tset_self (k : K) (v : V) (t : Table K V) : tget k (tset k v t) = some v := by
   simp [tset, tget]
 
-/-- every entry is the cold value of an input whose store key it sits under -/
-def Inv (m : Memo I K V) (t : Table K V) : Prop :=
-  ∀ kv ∈ t, ∃ j, m.skey j = kv.1 ∧ m.cacheable j = true ∧ kv.2 = m.compute j
+/-- every entry is the cold value of an (admissible) input whose store key it sits under -/
+def InvOn (P : I → Prop) (m : Memo I K V) (t : Table K V) : Prop :=
+  ∀ kv ∈ t, ∃ j, P j ∧ m.skey j = kv.1 ∧ m.cacheable j = true ∧ kv.2 = m.compute j
 
-/-- transparency of a memo: a stored entry that a lookup finds and accepts is the value the lookup's own input computes -/
-def Transparent (m : Memo I K V) : Prop :=
-  ∀ i j, m.key i = m.skey j → m.cacheable j = true → m.accept i (m.compute j) = true → m.compute j = m.compute i
+/-- transparency of a memo on the inputs satisfying `P`: a stored entry that a lookup finds and accepts is the value the
+    lookup's own input computes -/
+def TransparentOn (P : I → Prop) (m : Memo I K V) : Prop :=
+  ∀ i j, P i → P j → m.key i = m.skey j → m.cacheable j = true → m.accept i (m.compute j) = true → m.compute j = m.compute i
+
+/-- transparency for all inputs -/
+def Transparent (m : Memo I K V) : Prop := TransparentOn (fun _ => True) m
+
+/-- all calls of a history are made with admissible inputs -/
+def CallsOn (P : I → Prop) (ops : List (Op I K)) : Prop :=
+  ∀ op ∈ ops, match op with | .call i => P i | _ => True
 
 omit [DecidableEq K] in
-theorem inv_nil (m : Memo I K V) : Inv m [] := by intro kv h; cases h
+theorem inv_nil (P : I → Prop) (m : Memo I K V) : InvOn P m [] := by intro kv h; cases h
 
-theorem inv_tdel (m : Memo I K V) (k : K) (t : Table K V) (h : Inv m t) : Inv m (tdel k t) :=
+theorem inv_tdel (P : I → Prop) (m : Memo I K V) (k : K) (t : Table K V) (h : InvOn P m t) : InvOn P m (tdel k t) :=
   fun kv hkv => h kv (tdel_subset hkv)
 
-theorem inv_store (m : Memo I K V) (t : Table K V) (i : I) (h : Inv m t) : Inv m (store m t i (m.compute i)) := by
+theorem inv_store (P : I → Prop) (m : Memo I K V) (t : Table K V) (i : I) (hi : P i) (h : InvOn P m t) :
+    InvOn P m (store m t i (m.compute i)) := by
   unfold store
   cases hc : m.cacheable i with
   | false => simpa using h
@@ -65,47 +74,49 @@ theorem inv_store (m : Memo I K V) (t : Table K V) (i : I) (h : Inv m t) : Inv m
     simp only [if_true]
     intro kv hkv
     rcases List.mem_cons.mp hkv with rfl | h'
-    · exact ⟨i, rfl, hc, rfl⟩
+    · exact ⟨i, hi, rfl, hc, rfl⟩
     · exact h kv (tdel_subset h')
 
-theorem call_correct (m : Memo I K V) (ht : Transparent m) (t : Table K V) (h : Inv m t) (i : I) :
-    (call m t i).2.1 = m.compute i ∧ Inv m (call m t i).1 := by
+theorem call_correct (P : I → Prop) (m : Memo I K V) (ht : TransparentOn P m) (t : Table K V) (h : InvOn P m t) (i : I) (hi : P i) :
+    (call m t i).2.1 = m.compute i ∧ InvOn P m (call m t i).1 := by
   unfold call
   cases hg : tget (m.key i) t with
-  | none => exact ⟨rfl, inv_store m t i h⟩
+  | none => exact ⟨rfl, inv_store P m t i hi h⟩
   | some v =>
     simp only
     cases ha : m.accept i v with
     | true =>
       simp only [if_true]
-      obtain ⟨j, hj1, hj2, hj3⟩ := h _ (tget_mem hg)
+      obtain ⟨j, hPj, hj1, hj2, hj3⟩ := h _ (tget_mem hg)
       simp only at hj1 hj3
       subst hj3
-      exact ⟨ht i j hj1.symm hj2 ha, h⟩
+      exact ⟨ht i j hi hPj hj1.symm hj2 ha, h⟩
     | false =>
       simp only [Bool.false_eq_true, if_false]
-      refine ⟨trivial, inv_store m _ i ?_⟩
+      refine ⟨trivial, inv_store P m _ i hi ?_⟩
       split
-      · exact inv_tdel m _ t h
+      · exact inv_tdel P m _ t h
       · exact h
 
-theorem run_correct (m : Memo I K V) (ht : Transparent m) (ops : List (Op I K)) :
-    ∀ t, Inv m t → run m t ops = ops.map (cold m) := by
+theorem run_correct (P : I → Prop) (m : Memo I K V) (ht : TransparentOn P m) (ops : List (Op I K)) :
+    ∀ t, InvOn P m t → CallsOn P ops → run m t ops = ops.map (cold m) := by
   induction ops with
-  | nil => intro t _; rfl
+  | nil => intro t _ _; rfl
   | cons op rest ih =>
-    intro t h
+    intro t h hc
+    have hrest : CallsOn P rest := fun o ho => hc o (List.mem_cons_of_mem _ ho)
     cases op with
     | call i =>
-      obtain ⟨h1, h2⟩ := call_correct m ht t h i
+      have hi : P i := hc (.call i) List.mem_cons_self
+      obtain ⟨h1, h2⟩ := call_correct P m ht t h i hi
       simp only [run, step, List.map_cons, cold, h1]
-      rw [ih _ h2]
+      rw [ih _ h2 hrest]
     | clear =>
       simp only [run, step, List.map_cons, cold]
-      rw [ih _ (inv_nil m)]
+      rw [ih _ (inv_nil P m) hrest]
     | pop k =>
       simp only [run, step, List.map_cons, cold]
-      rw [ih _ (inv_tdel m k t h)]
+      rw [ih _ (inv_tdel P m k t h) hrest]
 
 /-- field keys: agreeing on the key fields means agreeing on every field the key contains -/
 theorem keyOf_eq_of_subset (fs ds : List Field) (hsub : ∀ d ∈ ds, d ∈ fs) (e e' : Env)
@@ -116,5 +127,119 @@ theorem keyOf_eq_of_subset (fs ds : List Field) (hsub : ∀ d ∈ ds, d ∈ fs) 
     exact List.map_inj_left.mp h f hf
   unfold keyOf
   exact List.map_inj_left.mpr (fun d hd => hf d (hsub d hd))
+
+/-! ### the result cache: warm and cold runs stay in lock-step -/
+namespace ResultCache
+
+/-- everything of a session except the result cache -/
+def core (s : Sess) : DbState × DbState × List Change × Bool × Nat := (s.db, s.committed, s.pending, s.modified, s.noflush)
+
+/-- every cached result is the result of its query on the CURRENT database state of the transaction -/
+def RInv (s : Sess) : Prop := ∀ kv ∈ s.results, kv.2 = eval kv.1 s.db
+
+theorem core_eq {s s' : Sess} (h : core s = core s') :
+    s.db = s'.db ∧ s.committed = s'.committed ∧ s.pending = s'.pending ∧ s.modified = s'.modified ∧ s.noflush = s'.noflush := by
+  simpa [core] using h
+
+theorem flush_core {s s' : Sess} (h : core s = core s') : core (flush s) = core (flush s') := by
+  obtain ⟨h1, h2, h3, h4, h5⟩ := core_eq h
+  unfold flush
+  by_cases hn : s.noflush = 0
+  · have hn' : s'.noflush = 0 := h5 ▸ hn
+    cases hm : s.modified with
+    | false => have hm' : s'.modified = false := h4 ▸ hm; simp [hn, hn', hm', h]
+    | true => have hm' : s'.modified = true := h4 ▸ hm; simp [hn, hn', hm', core, h1, h2, h3]
+  · have hn' : s'.noflush ≠ 0 := h5 ▸ hn
+    simp [hn, hn', h]
+
+theorem flush_rinv {s : Sess} (h : RInv s) : RInv (flush s) := by
+  unfold flush
+  split
+  · exact h
+  · split
+    · exact h
+    · intro kv hkv; cases hkv
+
+/-- one step: the warm and the cold session agree on everything but the result cache, the warm cache stays valid, and the
+    two answers coincide — provided `Entity.flush` clears the cache or the step is not an `obj.flush()` -/
+theorem step_sim (cfg : Cfg) (sw sc : Sess) (op : Op) (hc : core sw = core sc) (hi : RInv sw)
+    (hop : cfg.objFlushClears = true ∨ op.isObjFlush = false) :
+    core (step cfg true sw op).1 = core (step cfg false sc op).1 ∧ RInv (step cfg true sw op).1 ∧
+      (step cfg true sw op).2.result = (step cfg false sc op).2.result := by
+  obtain ⟨h1, h2, h3, h4, h5⟩ := core_eq hc
+  cases op with
+  | modify c => exact ⟨by simp [step, core, h1, h2, h3, h5], hi, rfl⟩
+  | query k cacheable =>
+    have hf := flush_core hc
+    have hfi := flush_rinv hi
+    obtain ⟨g1, g2, g3, g4, g5⟩ := core_eq hf
+    simp only [step, if_true, Bool.false_eq_true, if_false]
+    cases hg : tget k (flush sw).results with
+    | some r =>
+      have hr := hfi _ (tget_mem hg)
+      simp only at hr
+      refine ⟨?_, hfi, ?_⟩
+      · simp [core, g1, g2, g3, g4, g5]
+      · simp [Out.result, hr, g1]
+    | none =>
+      refine ⟨?_, ?_, ?_⟩
+      · simp [core, g1, g2, g3, g4, g5]
+      · intro kv hkv
+        simp only at hkv
+        split at hkv
+        · rcases List.mem_cons.mp hkv with rfl | h'
+          · rfl
+          · exact hfi kv (tdel_subset h')
+        · exact hfi kv hkv
+      · simp [Out.result, g1]
+  | flush => exact ⟨flush_core hc, flush_rinv hi, rfl⟩
+  | commit =>
+    have hf := flush_core hc
+    obtain ⟨g1, g2, g3, g4, g5⟩ := core_eq hf
+    refine ⟨by simp [step, core, g1, g3, g4, g5], ?_, rfl⟩
+    intro kv hkv; simp [step] at hkv
+  | rollback =>
+    refine ⟨by simp [step, core, h2, Sess.init], ?_, rfl⟩
+    intro kv hkv; simp [step, Sess.init] at hkv
+  | bulkDelete c =>
+    have hf := flush_core hc
+    obtain ⟨g1, g2, g3, g4, g5⟩ := core_eq hf
+    refine ⟨by simp [step, core, g1, g2, g3, g4, g5], ?_, rfl⟩
+    intro kv hkv; simp [step] at hkv
+  | objFlush c =>
+    have hcl : cfg.objFlushClears = true := by
+      rcases hop with h | h
+      · exact h
+      · simp [Op.isObjFlush] at h
+    simp only [step, h3]
+    by_cases hm : c ∈ sc.pending
+    · simp only [hm, if_true, hcl]
+      refine ⟨by simp [core, h1, h2, h4, h5], ?_, trivial⟩
+      intro kv hkv; cases hkv
+    · simp only [hm, if_false]
+      exact ⟨hc, hi, trivial⟩
+  | enterHook => exact ⟨by simp [step, core, h1, h2, h3, h4, h5], hi, rfl⟩
+  | exitHook => exact ⟨by simp [step, core, h1, h2, h3, h4, h5], hi, rfl⟩
+
+theorem run_sim (cfg : Cfg) (hist : List Op) (hops : cfg.objFlushClears = true ∨ ∀ op ∈ hist, op.isObjFlush = false) :
+    ∀ sw sc, core sw = core sc → RInv sw →
+      (run cfg true sw hist).map Out.result = (run cfg false sc hist).map Out.result := by
+  induction hist with
+  | nil => intro _ _ _ _; rfl
+  | cons op rest ih =>
+    intro sw sc hc hi
+    have hop : cfg.objFlushClears = true ∨ op.isObjFlush = false := by
+      rcases hops with h | h
+      · exact Or.inl h
+      · exact Or.inr (h op List.mem_cons_self)
+    have hrest : cfg.objFlushClears = true ∨ ∀ o ∈ rest, o.isObjFlush = false := by
+      rcases hops with h | h
+      · exact Or.inl h
+      · exact Or.inr (fun o ho => h o (List.mem_cons_of_mem _ ho))
+    obtain ⟨s1, s2, s3⟩ := step_sim cfg sw sc op hc hi hop
+    simp only [run, List.map_cons, s3]
+    rw [ih hrest _ _ s1 s2]
+
+end ResultCache
 
 end PonyVerif.Model.Memo
